@@ -38,7 +38,7 @@ func c15Bodies(n int) []int {
 			out = append(out, shape*100+l1*10)
 		}
 	}
-	for _, shape := range []int{2, 3, 4, 5} {
+	for _, shape := range []int{2, 3, 4, 5, 7, 8, 9} {
 		for l1 := 0; l1 < leaves; l1++ {
 			for l2 := 0; l2 < leaves; l2++ {
 				out = append(out, shape*100+l1*10+l2)
@@ -68,6 +68,8 @@ func c15Cost(code, nl int) int {
 		return 12 * lf(l1) * lf(l2)
 	case 6:
 		return 36 * lf(l1)
+	case 7, 8, 9:
+		return nl * lf(l1) * lf(l2)
 	}
 	return 1
 }
@@ -145,7 +147,7 @@ func checkC15(c *Ctx) error {
 	runner := &NativeRunner{Dir: ws.HX, PkgPath: pkg, Entries: c15Entries}
 	res := RunJobs(l, jobs, c.Workers, cfg, c.Deadline)
 	c.Programs = len(jobs)
-	c.Bounds["skeletons"] = map[string]any{"rules": "1..3", "body_shapes": "leaf, unary(leaf), unary(unary(leaf)), list(leaf,leaf), unary(list), list(unary,leaf), list(leaf,unary)",
+	c.Bounds["skeletons"] = map[string]any{"rules": "1..3", "body_shapes": "leaf, unary(leaf), unary(unary(leaf)), list(leaf,leaf), unary(list), list(unary,leaf), list(leaf,unary), (leaf / T) leaf, leaf T / leaf, leaf (T / leaf)",
 		"leaf_wiring": "terminal | reference to each defined rule | reference to an undefined name", "one_rule": "all bodies", "two_rules": "all first bodies x seeded sample of second; plus Ra <- Rb Ra / op(Rb) Ra / Rb op(Ra) with every terminal-only body for Rb", "three_rules": "seeded sample"}
 	c.Bounds["symbolic"] = "operator labels: unary in {? * + & ! <>}, list in {/ sequence}, terminal in {dot, character, empty, action, predicate}; Strict"
 	c.Bounds["outside"] = "larger grammars; deeper nesting; -switch/-inline (analysis is independent of them); wording beyond the three quoted phrases"
